@@ -87,11 +87,6 @@ def posReads (rds : List Rd) : List Nat :=
     | .ok (n+1) => some (n+1)
     | _ => none
 
-/-- the positive results before the first non-positive one: what is readable right now -/
-def readable : List Rd → List Nat
-  | .ok (n+1) :: rs => (n+1) :: readable rs
-  | _ => []
-
 /-- (a) once an operator was detached or hung up, nothing more happens to it except the hang-up
 callback itself: in particular every `InputAck` precedes the hang-up -/
 def quietAfterDetach : List ObsItem → Bool
